@@ -86,6 +86,7 @@ class Check:
         self.violations = []    # (key, text, replay path)
         self.inconclusive = []
         self.pkgwrites = []
+        self.greads = set()     # labels of the package-level objects read by the runs of this check
         self.notes = []
         self.functions = set()
         self.stubs = set()
@@ -118,10 +119,14 @@ class Check:
                 self.notes.append('package-state analysis of the API not available: %s' % str(e)[:200])
         if api is not None:
             self.extra['package_state_analysis'] = {k: api[k] for k in ('key', 'calls', 'paths', 'secs', 'at', 'reused', 'errors')}
-            for f_ in api['findings']:
-                self.pkgwrites.append(('api', 0, '%s: %s' % tuple(f_), ''))
-            self.ground(self.pid + '.pkgstate.api', 'no exported function (%d call configurations, %d paths; %s) writes package-level state or returns package-level storage'
-                        % (api['calls'], api['paths'], 'result of the identical tree reused' if api['reused'] else 'computed in this run'), not api['findings'], str(api['findings'][:3]))
+            # only state that the functions of THIS check read can change what they do
+            rel = [f_ for f_ in api['findings'] if len(f_) < 3 or f_[2] in self.greads]
+            self.extra['package_state_analysis']['findings_about_state_not_read_here'] = [list(f_[:2]) for f_ in api['findings'] if f_ not in rel][:10]
+            self.extra['package_state_analysis']['package_level_objects_read_here'] = sorted(self.greads)[:40]
+            for f_ in rel:
+                self.pkgwrites.append(('api', 0, '%s: %s' % tuple(f_[:2]), ''))
+            self.ground(self.pid + '.pkgstate.api', 'no exported function (%d call configurations, %d paths; %s) writes, or hands to its caller, package-level state read by the functions of this check (%d objects read)'
+                        % (api['calls'], api['paths'], 'result of the identical tree reused' if api['reused'] else 'computed in this run', len(self.greads)), not rel, str([list(f_[:2]) for f_ in rel[:3]]))
         ok = not self.pkgwrites
         if not own_done:
             self.ground(self.pid + '.pkgstate', 'no encoded path of any function executed for this check writes package-level state (%d runs)' % len(self.extra.get('_runs', [])), ok, str(self.pkgwrites[:3]))
@@ -145,7 +150,7 @@ class Check:
             else:
                 self.inconclusive.append('package-level state is written (%s) but the field battery passes' % (self.pkgwrites[0][2:],))
             return
-        cases = [{'kind': 'hostile-prelude'}, {'kind': 'sanity'}] + fallback.cases_for(self.pid, self.seed)
+        cases = [{'kind': 'hostile-prelude'}] + fallback.cases_for(self.pid, self.seed)   # only the property's own cases can report a mismatch
         path = self.save_replay({'property': self.pid, 'cases': cases, 'reason': 'package-level state is written: %s' % (self.pkgwrites[:3],)})
         ok2, out = go_test(path, race=(self.pid == 'C16'), timeout=900)
         if not ok2 and 'MISMATCH' in out:
@@ -170,6 +175,7 @@ class Check:
                 for w in p.get('writes', []):
                     if w.get('tag') == 'Global':
                         self.pkgwrites.append((r.id, p['id'], w.get('label'), w.get('at')))
+                self.greads.update(p.get('greads') or [])
         return runs
 
     # ---- obligations ----
